@@ -17,7 +17,7 @@ import (
 func init() { register("C17", checkC17) }
 
 func checkC17(r *core.Run) {
-	r.Explanation = "C17 (structural clauses only): every write of Binding, Update and UpdatePaymentAddress is dominated on all paths by the tests the statement names (account unbound, no existing auth, proof verified, fresh, submitter bound once the DID exists, document id recomputed; all accounts handled and the payment account never unbound; sid payment address only for an account bound to that DID, key payment address only once, only by the address itself and only if the address has no key DID yet); the binding tables are written only from those handlers, genesis and the v2 migration; the bytes a binding proof signs must depend on the DID and timestamp it claims. Decides guard dominance, capability and data dependence; whole-table agreement is not decided."
+	r.Explanation = "C17 (structural clauses only): every write of Binding, Update and UpdatePaymentAddress is dominated on all paths by the tests the statement names (account unbound, no existing auth, proof verified, fresh, submitter bound once the DID exists, document id recomputed; all accounts handled and the payment account never unbound; sid payment address only for an account bound to that DID, key payment address only once, only by the address itself and only if the address has no key DID yet); the binding tables are written only from those handlers, genesis and the v2 migration; the bytes a binding proof signs must depend on the DID and timestamp it claims. Decides guard dominance, capability and data dependence; whole-table agreement is not decided. A binding proof is accepted only behind an exact string equality of the proven address with the address part of the account id under which the records are keyed (G-proof-addr)."
 	r.Rule("G-bind / G-upd / G-pay: guard rows of DESIGN A.2 evaluated path-sensitively; for-all requirements are recognised as range loops whose every iteration passes the inner test")
 	r.Rule("T-paykey: in UpdatePaymentAddress the PaymentAddress/Kid records are written under msg.Did (or the bound DID tested equal to it) and the parsed account address, i.e. the same keys the guards looked up")
 	r.Rule("G-proof-addr: every success return of verifyBindingProof lies behind the equal side of an exact string comparison (==) between a value and the address part of the account id being bound (the registry is keyed by the raw account-id string, so the proof must be checked for exactly that spelling)")
